@@ -134,8 +134,10 @@ structure WF (t : Timer δ ε) : Prop where
   dead : t.stopped = true → t.pending = []
   sdead : t.stopped = true → t.alive = false
 
-theorem WF.init (d : δ) : WF (Timer.init d : Timer δ ε) := by
-  constructor <;> simp [Timer.init, lookupId]
+theorem WF.initWith (f : δ → ε → ε) (d : δ) : WF (Timer.initWith f d : Timer δ ε) := by
+  constructor <;> simp [Timer.initWith, lookupId]
+
+theorem WF.init (d : δ) : WF (Timer.init d : Timer δ ε) := WF.initWith _ d
 
 theorem WF.tick {t : Timer δ ε} (h : WF t) (t' : Nat) : WF (t.tick t') := by
   obtain ⟨h1, h2, h3, h4, h5, h6, h7, h8, h9, h10, h11, h12, h13, h14⟩ := h
@@ -202,8 +204,8 @@ theorem WF.fireOne {t : Timer δ ε} (h : WF t) {e : Entry ε} {rest : List (Ent
   rw [hp] at h1 h2 h3 h6 h9 h10 h12
   have s1 := List.pairwise_cons.1 h1
   have s2 := List.pairwise_cons.1 h2
-  have hlog : ∀ d ∈ t.log ++ [(⟨t.now, true, e⟩ : Delivery ε)],
-      d ∈ t.log ∨ d = ⟨t.now, true, e⟩ := by
+  have hlog : ∀ d ∈ t.log ++ [(⟨t.now, true, e, t.deref t.data e.event⟩ : Delivery ε)],
+      d ∈ t.log ∨ d = ⟨t.now, true, e, t.deref t.data e.event⟩ := by
     intro d hd; simpa using hd
   -- facts that do not depend on which guard is dropped
   have A : ∀ (p' : List (Entry ε)) (dl : List (SendId × Nat)),
@@ -211,7 +213,7 @@ theorem WF.fireOne {t : Timer δ ε} (h : WF t) {e : Entry ε} {rest : List (Ent
       (∀ x ∈ p', ∀ sid, x.sendid = some sid → lookupId sid dl = some x.seq) →
       (∀ sid g, lookupId sid dl = some g → lookupId sid t.delayed = some g) →
       (t.stopped = true → p' = []) →
-      WF ({ t with pending := p', delayed := dl, log := t.log ++ [⟨t.now, true, e⟩] } : Timer δ ε) := by
+      WF ({ t with pending := p', delayed := dl, log := t.log ++ [⟨t.now, true, e, t.deref t.data e.event⟩] } : Timer δ ε) := by
     intro p' dl hsub hs hn hown hdl hdead
     constructor <;> simp only
     · exact hs
@@ -304,8 +306,8 @@ theorem WF.send {t : Timer δ ε} (h : WF t) (id : Option SendId) (tg : Str) (de
   simp only
   split
   · -- delay = 0: sent directly
-    have hlog : ∀ d ∈ t.log ++ [(⟨t.now, false, ⟨t.now, t.nextSeq, id, tg, mk t.data⟩⟩ : Delivery ε)],
-        d ∈ t.log ∨ d = ⟨t.now, false, ⟨t.now, t.nextSeq, id, tg, mk t.data⟩⟩ := by
+    have hlog : ∀ d ∈ t.log ++ [(⟨t.now, false, ⟨t.now, t.nextSeq, id, tg, mk t.data⟩, t.deref t.data (mk t.data)⟩ : Delivery ε)],
+        d ∈ t.log ∨ d = ⟨t.now, false, ⟨t.now, t.nextSeq, id, tg, mk t.data⟩, t.deref t.data (mk t.data)⟩ := by
       intro d hd; simpa using hd
     constructor <;> simp only
     · exact h1
@@ -492,7 +494,7 @@ theorem fireOne_pending {t : Timer δ ε} (h : WF t) {x : Entry ε} {rest : List
       exact dropGuard_of_not_mem (fun y hy => ((List.pairwise_cons.1 hn).1 y hy).symm)
 
 theorem fireOne_log (t : Timer δ ε) (x : Entry ε) (rest : List (Entry ε)) :
-    (fireOne t x rest).log = t.log ++ [⟨t.now, true, x⟩] := by
+    (fireOne t x rest).log = t.log ++ [⟨t.now, true, x, t.deref t.data x.event⟩] := by
   unfold Rfsm.Timer.fireOne
   split
   · rfl
@@ -669,7 +671,7 @@ theorem fire_keeps {t : Timer δ ε} (h : WF t) {e : Entry ε} (he : e ∈ t.pen
         rcases List.mem_cons.1 he with rfl | he
         · right
           have hm := (Frame.fireLoop (fireOne t e rest) f).mono
-          refine ⟨⟨t.now, true, e⟩, hm _ ?_, rfl, rfl⟩
+          refine ⟨⟨t.now, true, e, t.deref t.data e.event⟩, hm _ ?_, rfl, rfl⟩
           rw [fireOne_log]; simp
         · exact ih hw (by rw [fireOne_pending h hp]; exact he)
       · exact Or.inl he
@@ -696,7 +698,7 @@ theorem fire_due {t : Timer δ ε} (h : WF t) {e : Entry ε} (he : e ∈ t.pendi
       have hw := h.fireOne hp hxdue
       rcases List.mem_cons.1 he with rfl | he'
       · have hm := (Frame.fireLoop (fireOne t e rest) f).mono
-        refine ⟨⟨t.now, true, e⟩, hm _ ?_, rfl, rfl⟩
+        refine ⟨⟨t.now, true, e, t.deref t.data e.event⟩, hm _ ?_, rfl, rfl⟩
         rw [fireOne_log]; simp
       · refine ih hw (by rw [fireOne_pending h hp]; exact he') ?_ ?_
         · rw [(fireOne_now t x rest).1]; exact hdue
@@ -790,6 +792,144 @@ theorem Safe.of_harmless {e : Entry ε} {op : Op δ ε} (h : op.harmlessFor e.se
   | assign f => trivial
   | tick t' => trivial
   | wake => trivial
+
+/-! ### what the receiver reads -/
+
+/-- every delivery was read through the session's (constant) `deref` from some state of the data -/
+def Seen (t : Timer δ ε) : Prop := ∀ d ∈ t.log, ∃ dat, d.seen = t.deref dat d.entry.event
+
+theorem fireOne_deref (t : Timer δ ε) (x : Entry ε) (rest : List (Entry ε)) :
+    (fireOne t x rest).deref = t.deref := by
+  unfold Rfsm.Timer.fireOne
+  split
+  · rfl
+  · split <;> rfl
+
+theorem fireLoop_deref (f : Nat) (t : Timer δ ε) : (fireLoop f t).deref = t.deref := by
+  induction f generalizing t with
+  | zero => rfl
+  | succ f ih =>
+    unfold Rfsm.Timer.fireLoop
+    split
+    · rfl
+    · split
+      · exact (ih _).trans (fireOne_deref ..)
+      · rfl
+
+theorem step_deref (t : Timer δ ε) (op : Op δ ε) : (t.step op).deref = t.deref := by
+  cases op with
+  | send id tg d mk =>
+    show (t.send id tg d mk).deref = t.deref
+    unfold Timer.send
+    split
+    · rfl
+    split
+    · rfl
+    split
+    · rfl
+    simp only
+    split
+    · rfl
+    · cases id <;> rfl
+  | cancel id =>
+    show (t.cancel id).deref = t.deref
+    unfold Timer.cancel
+    split
+    · rfl
+    · split <;> rfl
+  | assign f => show (t.assign f).deref = t.deref; unfold Timer.assign; split <;> rfl
+  | tick t' => rfl
+  | wake =>
+    show t.wake.deref = t.deref
+    unfold Timer.wake
+    split
+    · rfl
+    · exact fireLoop_deref ..
+  | terminate => rfl
+  | stop => show t.stop.deref = t.deref; unfold Timer.stop; split <;> rfl
+
+theorem run_deref (t : Timer δ ε) (ops : List (Op δ ε)) : (t.run ops).deref = t.deref := by
+  induction ops generalizing t with
+  | nil => rfl
+  | cons op ops ih => exact (ih _).trans (step_deref t op)
+
+theorem Seen.fireOne {t : Timer δ ε} (h : Seen t) (x : Entry ε) (rest : List (Entry ε)) :
+    Seen (fireOne t x rest) := by
+  intro d hd
+  rw [fireOne_log] at hd
+  rw [fireOne_deref]
+  rcases List.mem_append.1 hd with hd | hd
+  · exact h d hd
+  · simp only [List.mem_singleton] at hd
+    subst hd
+    exact ⟨t.data, rfl⟩
+
+theorem Seen.fireLoop {t : Timer δ ε} (h : Seen t) (f : Nat) : Seen (fireLoop f t) := by
+  induction f generalizing t with
+  | zero => exact h
+  | succ f ih =>
+    unfold Rfsm.Timer.fireLoop
+    split
+    · exact h
+    · split
+      · exact ih (h.fireOne _ _)
+      · exact h
+
+theorem Seen.step {t : Timer δ ε} (h : Seen t) (op : Op δ ε) : Seen (t.step op) := by
+  cases op with
+  | send id tg d mk =>
+    show Seen (t.send id tg d mk)
+    unfold Timer.send
+    split
+    · exact h
+    split
+    · exact h
+    split
+    · exact h
+    simp only
+    split
+    · intro x hx
+      rcases List.mem_append.1 hx with hx | hx
+      · exact h x hx
+      · simp only [List.mem_singleton] at hx
+        subst hx
+        exact ⟨t.data, rfl⟩
+    · cases id with
+      | none => exact h
+      | some sid => exact h
+  | cancel id =>
+    show Seen (t.cancel id)
+    unfold Timer.cancel
+    split
+    · exact h
+    · split
+      · exact h
+      · exact h
+  | assign f =>
+    show Seen (t.assign f)
+    unfold Timer.assign
+    split
+    · exact h
+    · exact h
+  | tick t' => exact h
+  | wake =>
+    show Seen t.wake
+    unfold Timer.wake
+    split
+    · exact h
+    · exact h.fireLoop _
+  | terminate => exact h
+  | stop =>
+    show Seen t.stop
+    unfold Timer.stop
+    split
+    · exact h
+    · exact h
+
+theorem Seen.run {t : Timer δ ε} (h : Seen t) (ops : List (Op δ ε)) : Seen (t.run ops) := by
+  induction ops generalizing t with
+  | nil => exact h
+  | cons op ops ih => exact ih (h.step op)
 
 /-! ### helpers of the C16 theorems -/
 
